@@ -7,6 +7,7 @@ python3 tools/vendor.py
 python3 tools/gen.py
 python3 tools/gen_ast.py >/dev/null
 python3 tools/gen_asserts.py
+python3 tools/gen_witness.py
 cp -f /repo/Cargo.lock harness/Cargo.lock 2>/dev/null || true
 (cd lean && lake build Swiftness drv)
 python3 tools/build_all.py
